@@ -11,6 +11,7 @@ package main
 import (
 	"encoding/json"
 	"fmt"
+	"strconv"
 	"strings"
 	"sync"
 	"time"
@@ -161,9 +162,94 @@ type connSvc interface {
 	VerifBarrier()
 }
 
+// connFault is the storage fault armed for one op on one agent's protocol state store:
+// get = the first read fails; put<k> = the k-th write of the connection record (key conn_<id>) fails, writing nothing.
+type connFault struct {
+	kind  string
+	k     int
+	n     int
+	fired bool
+}
+
+var errInjected = fmt.Errorf("verif: injected storage failure")
+
+// faultProvider: the stores outlive the framework instance (Close is a no-op: mem drops a store on Close) and the
+// protocol state store "didexchange" consults the agent's armed fault.
+type faultProvider struct {
+	storage.Provider
+	a  *connAgent
+	ps bool
+}
+
+func (p *faultProvider) Close() error { return nil }
+func (p *faultProvider) OpenStore(name string) (storage.Store, error) {
+	st, err := p.Provider.OpenStore(name)
+	if err != nil {
+		return nil, err
+	}
+
+	return &faultStore{Store: st, a: p.a, watch: p.ps && name == "didexchange"}, nil
+}
+
+type faultStore struct {
+	storage.Store
+	a     *connAgent
+	watch bool
+}
+
+func (s *faultStore) Close() error { return nil }
+
+func (s *faultStore) Put(k string, v []byte, tags ...storage.Tag) error {
+	// a state write = the connection record with the state being executed (the record a request is registered with
+	// before the state machine runs carries the state "null": not a state write)
+	if s.watch && strings.HasPrefix(k, "conn_") && !strings.Contains(string(v), `"State":"null"`) {
+		s.a.fmu.Lock()
+		f := s.a.fault
+
+		if f != nil && f.kind == "put" {
+			hit := f.n == f.k
+			f.n++
+
+			if hit {
+				f.fired = true
+				s.a.fmu.Unlock()
+
+				return errInjected
+			}
+		}
+
+		s.a.fmu.Unlock()
+	}
+
+	return s.Store.Put(k, v, tags...)
+}
+
+func (s *faultStore) Get(k string) ([]byte, error) {
+	if s.watch {
+		s.a.fmu.Lock()
+		f := s.a.fault
+
+		if f != nil && f.kind == "get" && !f.fired {
+			f.fired = true
+			s.a.fmu.Unlock()
+
+			return nil, errInjected
+		}
+
+		s.a.fmu.Unlock()
+	}
+
+	return s.Store.Get(k)
+}
+
 type connAgent struct {
 	name    string
 	thread  int
+	index   int
+	main    storage.Provider
+	psProv  storage.Provider
+	fmu     sync.Mutex
+	fault   *connFault
 	inbound *connInbound
 	fw      *aries.Aries
 	ctx     *context.Provider
@@ -180,6 +266,7 @@ type connEvent struct {
 	act     service.DIDCommAction
 	connID  string
 	used    bool // callback invoked, or an API decision was accepted
+	gone    bool // the service that handed out the callback was stopped (restart)
 	src     string
 	msgName string
 }
@@ -195,81 +282,123 @@ type connWorld struct {
 	lc        [2]*lcclient.Client
 }
 
-func newConnAgent(w *connWorld, name string, thread int) *connAgent {
-	a := &connAgent{name: name, thread: thread, inbound: &connInbound{endpoint: connScheme + name}}
-	psProv := mem.NewProvider()
-
-	fw, err := aries.New(
-		aries.WithStoreProvider(mem.NewProvider()),
-		aries.WithProtocolStateStoreProvider(psProv),
-		aries.WithInboundTransport(a.inbound),
-		aries.WithOutboundTransports(&connOutbound{w: w}),
-	)
-	must(err)
-
-	a.fw = fw
-	a.ctx, err = fw.Context()
-	must(err)
-
-	a.ps, err = psProv.OpenStore("didexchange")
-	must(err)
-
-	a.actions = make(chan service.DIDCommAction, 16)
-	a.events = make(chan service.StateMsg, 256)
+func newConnAgent(w *connWorld, name string, thread, index int) *connAgent {
+	a := &connAgent{name: name, thread: thread, index: index, inbound: &connInbound{endpoint: connScheme + name}}
+	a.main = &faultProvider{Provider: mem.NewProvider(), a: a}
+	a.psProv = &faultProvider{Provider: mem.NewProvider(), a: a, ps: true}
 
 	return a
 }
 
-func newConnWorld(proto string) *connWorld {
-	w := &connWorld{proto: proto}
-	w.a = newConnAgent(w, "a", 1)
-	w.b = newConnAgent(w, "b", 2)
+// build starts a framework instance over the agent's stores (also used for a restart).
+func (w *connWorld) build(ag *connAgent) {
+	fw, err := aries.New(
+		aries.WithStoreProvider(ag.main),
+		aries.WithProtocolStateStoreProvider(ag.psProv),
+		aries.WithInboundTransport(ag.inbound),
+		aries.WithOutboundTransports(&connOutbound{w: w}),
+	)
+	must(err)
 
-	for i, ag := range []*connAgent{w.a, w.b} {
-		ag := ag
+	ag.fw = fw
+	ag.ctx, err = fw.Context()
+	must(err)
 
-		switch proto {
-		case "didex":
-			s, err := ag.ctx.Service(didexchange.DIDExchange)
-			must(err)
+	ag.ps, err = ag.psProv.(*faultProvider).Provider.OpenStore("didexchange")
+	must(err)
 
-			svc := s.(*didexchange.Service) //nolint:forcetypeassert
-			ag.svc = svc
+	ag.actions = make(chan service.DIDCommAction, 16)
+	ag.events = make(chan service.StateMsg, 256)
+	i := ag.index
 
-			if i == 0 {
-				ag.accept = func(id string) error { return svc.AcceptExchangeRequest(id, "", "", nil) }
-			} else {
-				ag.accept = func(id string) error { return svc.AcceptInvitation(id, "", "", nil) }
-			}
+	switch w.proto {
+	case "didex":
+		s, err := ag.ctx.Service(didexchange.DIDExchange)
+		must(err)
 
-			c, err := dxclient.New(ag.ctx)
-			must(err)
+		svc := s.(*didexchange.Service) //nolint:forcetypeassert
+		ag.svc = svc
 
-			w.dx[i] = c
-		case "legacy":
-			s, err := ag.ctx.Service(legacyconnection.LegacyConnection)
-			must(err)
-
-			svc := s.(*legacyconnection.Service) //nolint:forcetypeassert
-			ag.svc = svc
-
-			if i == 0 {
-				ag.accept = func(id string) error { return svc.AcceptConnectionRequest(id, "", "", nil) }
-			} else {
-				ag.accept = func(id string) error { return svc.AcceptInvitation(id, "", "", nil) }
-			}
-
-			c, err := lcclient.New(ag.ctx)
-			must(err)
-
-			w.lc[i] = c
+		if i == 0 {
+			ag.accept = func(id string) error { return svc.AcceptExchangeRequest(id, "", "", nil) }
+		} else {
+			ag.accept = func(id string) error { return svc.AcceptInvitation(id, "", "", nil) }
 		}
 
-		must(ag.svc.RegisterActionEvent(ag.actions))
-		must(ag.svc.RegisterMsgEvent(ag.events))
+		c, err := dxclient.New(ag.ctx)
+		must(err)
+
+		w.dx[i] = c
+	case "legacy":
+		s, err := ag.ctx.Service(legacyconnection.LegacyConnection)
+		must(err)
+
+		svc := s.(*legacyconnection.Service) //nolint:forcetypeassert
+		ag.svc = svc
+
+		if i == 0 {
+			ag.accept = func(id string) error { return svc.AcceptConnectionRequest(id, "", "", nil) }
+		} else {
+			ag.accept = func(id string) error { return svc.AcceptInvitation(id, "", "", nil) }
+		}
+
+		c, err := lcclient.New(ag.ctx)
+		must(err)
+
+		w.lc[i] = c
 	}
 
+	must(ag.svc.RegisterActionEvent(ag.actions))
+	must(ag.svc.RegisterMsgEvent(ag.events))
+}
+
+func newConnWorld(proto string) *connWorld {
+	w := &connWorld{proto: proto}
+	w.a = newConnAgent(w, "a", 1, 0)
+	w.b = newConnAgent(w, "b", 2, 1)
+	w.build(w.a)
+	w.build(w.b)
+
 	return w
+}
+
+// restart stops both framework instances and starts new ones over the same stores; the callbacks handed out before
+// are gone with the services that made them.
+func (w *connWorld) restart() {
+	for _, ag := range []*connAgent{w.a, w.b} {
+		_ = ag.fw.Close() //nolint:errcheck
+		w.build(ag)
+	}
+
+	for _, e := range w.evs {
+		e.gone = true
+	}
+}
+
+func (a *connAgent) arm(f string) {
+	a.fmu.Lock()
+	defer a.fmu.Unlock()
+
+	switch {
+	case f == "get":
+		a.fault = &connFault{kind: "get"}
+	case strings.HasPrefix(f, "put"):
+		k, _ := strconv.Atoi(f[3:]) //nolint:errcheck
+		a.fault = &connFault{kind: "put", k: k}
+	default:
+		a.fault = nil
+	}
+}
+
+// disarm removes the fault and says whether it fired.
+func (a *connAgent) disarm() bool {
+	a.fmu.Lock()
+	defer a.fmu.Unlock()
+
+	fired := a.fault != nil && a.fault.fired
+	a.fault = nil
+
+	return fired
 }
 
 func (w *connWorld) close() {
@@ -337,7 +466,8 @@ func (a *connAgent) drain() (ann []string, failed []bool, bad string) {
 
 	for i := 0; i < len(evs); i++ {
 		e := evs[i]
-		if p, ok := e.Properties.(connIDer); ok && a.connID == "" {
+		// the record the thread is mapped to (a request that is accepted again after a failed write registers a new one)
+		if p, ok := e.Properties.(connIDer); ok && p.ConnectionID() != "" {
 			a.connID = p.ConnectionID()
 		}
 
@@ -436,6 +566,9 @@ func (w *connWorld) apply(op Op) (o Obs, bad string) {
 	finish := func(a *connAgent, msgName string) {
 		var failed []bool
 
+		fired := a.disarm()
+		o.Fired = fired
+
 		o.Ann, failed, bad = a.drain()
 		o.Thread = a.thread
 		o.Post = a.persisted()
@@ -452,6 +585,9 @@ func (w *connWorld) apply(op Op) (o Obs, bad string) {
 			}
 
 			switch {
+			case failed[i] && fired:
+				// the state failed at the injected storage fault, not at its Execute
+				o.Tape = append(o.Tape, "noop")
 			case failed[i]:
 				o.Tape = append(o.Tape, "!")
 			case i+1 < len(o.Ann):
@@ -465,6 +601,12 @@ func (w *connWorld) apply(op Op) (o Obs, bad string) {
 	}
 
 	switch op.Kind {
+	case "restart":
+		w.restart()
+
+		o.Res, o.Ann, o.Thread = "ok", []string{}, -1
+
+		return o, ""
 	case "invite":
 		o.Pre = w.b.persisted()
 		base := inboundBase()
@@ -519,6 +661,7 @@ func (w *connWorld) apply(op Op) (o Obs, bad string) {
 
 		env, err := a.inbound.prov.Packager().UnpackMessage(p.Data)
 		if err == nil {
+			a.arm(op.Fault)
 			err = a.inbound.prov.InboundMessageHandler()(env)
 		}
 
@@ -540,15 +683,23 @@ func (w *connWorld) apply(op Op) (o Obs, bad string) {
 		}
 
 		e := w.evs[op.Ev]
-		a := e.agent
+		a := w.a
+		if e.agent.index == 1 {
+			a = w.b
+		}
 
-		if e.used && op.Kind != "accept" {
-			// the callback of an event is invoked at most once, and not after an accepted API decision
+		if (e.used || e.gone) && op.Kind != "accept" {
+			// the callback of an event is invoked at most once, and not after an accepted API decision;
+			// after a restart the callback is gone with the service that made it
 			o.Res, o.Ann, o.Thread = "noevent", []string{}, -1
 			return o, ""
 		}
 
 		o.Pre = a.persisted()
+
+		if op.Kind != "accept" {
+			a.arm(op.Fault)
+		}
 
 		switch op.Kind {
 		case "continue":
@@ -628,18 +779,37 @@ func coqConnCase(c *Case, obs []Obs, msgOf []string) string {
 	var ops, os []string
 
 	for i, op := range c.Ops {
-		tape := coqTape(n, obs[i].Tape)
+		// the machine predicts the follow-ups (generated table); the tape only says where an Execute failed on the
+		// content of the message: every other entry is a placeholder the machine does not read
+		var tl []string
+
+		for _, x := range obs[i].Tape {
+			if x == "!" {
+				tl = append(tl, "None")
+			} else {
+				tl = append(tl, "Some 0")
+			}
+		}
+
+		tape := hx.CoqList(tl)
+		fault := coqFault(op, obs[i])
+
+		if op.Kind == "deliver" && msgOf[i] == "" {
+			continue
+		}
 
 		switch op.Kind {
 		case "invite", "deliver":
 			m := c09tab.Index(c09tab.Msgs[c.Proto], msgOf[i])
-			ops = append(ops, fmt.Sprintf("Msg false %d %s false %d nofault %s", m, hx.CoqBool(tabs.ns[msgOf[i]]), obs[i].Thread, tape))
+			ops = append(ops, fmt.Sprintf("Msg false %d %s false %d %s %s", m, hx.CoqBool(tabs.ns[msgOf[i]]), obs[i].Thread, fault, tape))
 		case "continue":
-			ops = append(ops, fmt.Sprintf("Continue %d%%nat 0 nofault %s", op.Ev, tape))
+			ops = append(ops, fmt.Sprintf("Continue %d%%nat 0 %s %s", op.Ev, fault, tape))
 		case "stop":
-			ops = append(ops, fmt.Sprintf("Stop %d%%nat nofault %s", op.Ev, tape))
+			ops = append(ops, fmt.Sprintf("Stop %d%%nat %s %s", op.Ev, fault, tape))
 		case "accept":
 			ops = append(ops, fmt.Sprintf("Accept %d%%nat %s", op.Ev, tape))
+		case "restart":
+			ops = append(ops, "Restart")
 		}
 
 		var ann []string
@@ -660,6 +830,7 @@ type connState struct {
 	key      string
 	nPackets int
 	evUsed   []bool
+	evGone   []bool
 }
 
 func runConnCase(tr *hx.Trace, kind string, c *Case, withCoq bool) connState {
@@ -689,7 +860,9 @@ func runConnCase(tr *hx.Trace, kind string, c *Case, withCoq bool) connState {
 				name = w.packets[op.Ev].Type
 			}
 
-			if name == "?" || name == "" {
+			// a packet of a type outside the protocol's table has no counterpart in the model; a packet that does not
+			// exist (yet) is no operation at all: it is left out of the model's history
+			if name == "?" {
 				skipCoq = true
 			}
 		}
@@ -703,12 +876,18 @@ func runConnCase(tr *hx.Trace, kind string, c *Case, withCoq bool) connState {
 			jop.Kind = "msg"
 		}
 
-		if x := judge(c.Proto, jop, o, false, bad); x.fail && !v.fail {
-			v = x
+		if op.Kind != "restart" {
+			if x := judge(c.Proto, jop, o, false, bad); x.fail && !v.fail {
+				v = x
+			}
 		}
 
-		classes = append(classes, op.Kind+":"+name+":"+o.Res+":"+o.Pre+">"+join(o.Ann)+">"+o.Post)
+		classes = append(classes, op.Kind+":"+name+":"+op.Fault+":"+o.Res+":"+o.Pre+">"+join(o.Ann)+">"+o.Post)
 		dist = append(dist, c.Proto+":"+op.Kind+":"+o.Res)
+
+		if op.Fault != "" {
+			dist = append(dist, c.Proto+":fault:"+op.Fault+":fired="+fmt.Sprint(o.Fired))
+		}
 	}
 
 	r := &hx.Record{Kind: kind, Case: c, Observed: obs, Class: c.Proto + "|" + strings.Join(classes, "|"), Dist: dist}
@@ -727,7 +906,8 @@ func runConnCase(tr *hx.Trace, kind string, c *Case, withCoq bool) connState {
 
 	for _, e := range w.evs {
 		st.evUsed = append(st.evUsed, e.used)
-		key = append(key, fmt.Sprintf("e%s:%v", e.agent.name, e.used))
+		st.evGone = append(st.evGone, e.gone)
+		key = append(key, fmt.Sprintf("e%s:%v:%v", e.agent.name, e.used, e.gone))
 	}
 
 	// which packets were delivered (once / more than once) is part of the scheduler-visible state
@@ -755,14 +935,34 @@ func connCandidates(st connState) []Op {
 	for e, used := range st.evUsed {
 		// the callback of an event is invoked at most once and not after an accepted API decision (API contract);
 		// the API decision may be taken at any time, any number of times
-		if !used {
+		if !used && !st.evGone[e] {
 			ops = append(ops, Op{Kind: "continue", Ev: e}, Op{Kind: "stop", Ev: e})
 		}
 
 		ops = append(ops, Op{Kind: "accept", Ev: e})
 	}
 
+	// a restart of both agents: only worth a case of its own while a callback is still open
+	for e, used := range st.evUsed {
+		if !used && !st.evGone[e] {
+			ops = append(ops, Op{Kind: "restart"})
+			break
+		}
+	}
+
 	return ops
+}
+
+// connFaults: the storage faults worth injecting into an op.
+func connFaults(op Op) []string {
+	switch op.Kind {
+	case "deliver":
+		return []string{"get", "put0", "put1"}
+	case "continue", "stop":
+		return []string{"put0", "put1"}
+	}
+
+	return nil
 }
 
 type connNode struct {
@@ -771,12 +971,33 @@ type connNode struct {
 }
 
 // exploreConn: breadth-first over the scheduler-visible states; every (state, op) pair becomes a case.
-func exploreConn(tr *hx.Trace, proto string, depth, maxCases int) {
+func exploreConn(tr *hx.Trace, proto string, depth, maxCases, maxFault int) {
 	root := &Case{Proto: proto, Ops: []Op{{Kind: "invite"}}}
 	st := runConnCase(tr, "exhaustive", root, true)
 	seen := map[string]bool{st.key: true}
 	frontier := []connNode{{ops: root.Ops, st: st}}
 	n := 1
+	nodes := []connNode{frontier[0]}
+
+	defer func() {
+		// every op from every reached state again with every storage fault; the faulty op is followed by nothing
+		nf := 0
+
+		for _, nd := range nodes {
+			for _, op := range connCandidates(nd.st) {
+				for _, f := range connFaults(op) {
+					if nf >= maxFault {
+						return
+					}
+
+					fop := op
+					fop.Fault = f
+					runConnCase(tr, "exhaustive-fault", &Case{Proto: proto, Ops: append(append([]Op{}, nd.ops...), fop)}, true)
+					nf++
+				}
+			}
+		}
+	}()
 
 	for d := 1; d < depth && n < maxCases; d++ {
 		var next []connNode
@@ -797,6 +1018,7 @@ func exploreConn(tr *hx.Trace, proto string, depth, maxCases int) {
 
 				seen[st.key] = true
 				next = append(next, connNode{ops: c.Ops, st: st})
+				nodes = append(nodes, connNode{ops: c.Ops, st: st})
 			}
 		}
 
@@ -814,7 +1036,12 @@ func randomConnCase(tr *hx.Trace, rng *hx.Rng, proto string, maxLen int) {
 		switch x := rng.Intn(10); {
 		case x < 5:
 			// packets appear as the protocol proceeds: guess an index among the first few
-			c.Ops = append(c.Ops, Op{Kind: "deliver", Ev: rng.Intn(nPk + 2)})
+			op := Op{Kind: "deliver", Ev: rng.Intn(nPk + 2)}
+			if rng.Intn(5) == 0 {
+				op.Fault = []string{"get", "put0", "put1"}[rng.Intn(3)]
+			}
+
+			c.Ops = append(c.Ops, op)
 			nPk++
 		case x < 7:
 			e := rng.Intn(nEv + 1)
@@ -826,9 +1053,16 @@ func randomConnCase(tr *hx.Trace, rng *hx.Rng, proto string, maxLen int) {
 					k = "stop"
 				}
 
-				c.Ops = append(c.Ops, Op{Kind: k, Ev: e})
+				op := Op{Kind: k, Ev: e}
+				if rng.Intn(4) == 0 {
+					op.Fault = []string{"put0", "put1"}[rng.Intn(2)]
+				}
+
+				c.Ops = append(c.Ops, op)
 				nEv++
 			}
+		case x < 8:
+			c.Ops = append(c.Ops, Op{Kind: "restart"})
 		default:
 			e := rng.Intn(nEv + 1)
 			c.Ops = append(c.Ops, Op{Kind: "accept", Ev: e})
